@@ -252,7 +252,7 @@ func c16Exec(run *ev.Run, c ev.Case) {
 				c16RunSuites(run, append(append([]byte(nil), data...), 0x41), "stray")
 			}
 		case "dcmi", "dcmi-full":
-			modes := []string{"standard", "standard-empty", "standard-error", "standard-error-first", "both-empty"}
+			modes := []string{"standard", "standard-empty", "standard-error", "standard-error-first", "both-empty", "standard-error-later-page"}
 			for n := b.From; n < b.To; n++ {
 				for ps := 1; ps <= 8; ps++ {
 					if b.What == "dcmi" && (n+ps)%3 != 0 && n > 16 && n < 250 {
@@ -387,6 +387,12 @@ func c16RunDCMI(run *ev.Run, d c16DCMI) {
 	case "both-empty":
 		stdIDs = [3][]uint16{nil, nil, nil}
 		dcIDs = [3][]uint16{nil, nil, nil}
+	case "standard-error-later-page":
+		// the first page(s) of one standard entity are answered, a later one fails
+		k := (d.Counts[0] + d.PageSize) % 3
+		from := d.PageSize*(1+d.Counts[1]%2) + 1
+		srv.ErrFrom = map[byte]int{std[k]: from}
+		useStd = d.Counts[0]+d.Counts[1]+d.Counts[2] > 0 && len(stdIDs[k]) < from
 	}
 	for i := 0; i < 3; i++ {
 		srv.IDs[[2]byte{1, std[i]}] = stdIDs[i]
